@@ -43,7 +43,7 @@ def _hod_params(draw, T):
             p.update(Ccent=f(-0.3, 0.3), Csat=f(-0.3, 0.3))
     else:
         p.update(logM_cut=f(11.8, 13.0), kappa=f(0.0, 2.0), sigma=f(0.2, 1.0), logM1=f(13.0, 14.5), alpha=f(0.3, 1.2))
-    p['ic'] = draw(st.sampled_from([1.0, 0.97, 0.5, 0.25]))
+    p['ic'] = draw(st.sampled_from([1.0, 1.0, 0.97, 0.5, 0.25, 0.0, 0, 1]))  # incl. exactly 0 (a tracer switched off through its incompleteness) and YAML-style ints
     p['alpha_c'] = draw(st.sampled_from([0.0, 0.0, 0.3, 1.0]))
     p['alpha_s'] = draw(st.sampled_from([1.0, 1.0, 0.8, 1.3]))
     if draw(st.booleans()):
@@ -88,6 +88,8 @@ def classes(d):
         c.append('random-zero')
     if any('logM1_EE' in d['hod'].get(T, {}) for T in d['tracers']):
         c.append('conformity')
+    if any(d['hod'].get(T, {}).get('ic', 1.0) == 0 for T in d['tracers']):
+        c.append('ic=0')
     return c
 
 
